@@ -14,6 +14,22 @@ HARNESSES = [
                'thorough': [{'defines': ['TXLEN=7'], 'bound': 'tx length 7, all bytes symbolic', 'timeout': 3000},
                             {'defines': ['TXLEN=6'], 'bound': 'tx length 6, all bytes symbolic', 'timeout': 300}]}},
 ]
+import sys
+sys.path.insert(0, os.path.join(os.path.dirname(os.path.abspath(__file__)), '..', 'common'))
+import srcsets
+
+
+def MUT(name, macro, extra=(), jobs=16, tq=250):
+    return {'name': 'm_' + name, 'src': 'C06/h_mutate.cpp', 'entry': 'h_mutate', 'repo_srcs': srcsets.SERDE, 'defines': [macro] + list(extra), 'covers': [1, 2] if 'TRUNCATE' not in extra else [2], 'jobs': jobs, 'opts': {'fork-ptr': 1, 'max-enum': 2000, 'havoc-sha': 1},
+            'obligations': ['%s decoder as a whole on %s of a valid encoding produced by the real encoder: no out-of-bounds access / use-after-free / abort / exception; failure leaves an invalid ValidationState; a successful decode gives an object whose estimateSize() equals the length of its own encoding'
+                            % (name, 'every proper prefix' if 'TRUNCATE' in extra else 'every single-byte mutation (every position x every byte value)')],
+            'rungs': {'quick': [{'defines': ['NMUT=1'], 'bound': ('every proper prefix of the valid encoding' if 'TRUNCATE' in extra else 'one mutated byte: every position (case split) x all 256 values (symbolic); positions inside base58 address texts and inside the embedded BTC transaction are excluded (SHA-256 of symbolic data); address decoding of arbitrary bytes is decided byte-first by h_address'), 'timeout': tq}],
+                      'thorough': [{'defines': ['NMUT=2', 'POS_LO=0', 'POS_HI=60'] if 'TRUNCATE' not in extra else ['NMUT=1'], 'bound': ('as quick' if 'TRUNCATE' in extra else 'two mutated bytes among the first 61 positions (every pair x all values)'), 'timeout': 1500}]}}
+
+
+MUTATE_HARNESSES = [MUT('vbktx', 'M_VBKTX'), MUT('vbkpoptx', 'M_POPTX'), MUT('atv', 'M_ATV'), MUT('vtb', 'M_VTB'), MUT('popdata', 'M_POPDATA'),
+                    MUT('atv_trunc', 'M_ATV', extra=('TRUNCATE',), jobs=8), MUT('vtb_trunc', 'M_VTB', extra=('TRUNCATE',), jobs=8), MUT('popdata_trunc', 'M_POPDATA', extra=('TRUNCATE',), jobs=8)]
+HARNESSES += MUTATE_HARNESSES
 EXPLANATION = 'Real decoders/validators are executed symbolically over arbitrary byte strings up to the stated length; every memory access is bounds-checked by the engine.'
 ASSUMPTIONS = []
 # the byte-first decoder explorations are shared with C11 (same harness source; C06 relies on the engine's built-in memory-safety / abort / throw obligations)
